@@ -433,3 +433,127 @@ if z3 is not None:
             sec = z3.ToReal(t) * scale
             back = sec / scale
             yield ('exact-over-reals', [tempo > 0, tpb > 0], back == z3.ToReal(t))
+
+
+# ====================================================================== construction and add_track (C16, C07)
+_NEWMF = Harness('''
+    def do(MidiFile, kwargs, add):
+        mf = MidiFile(**kwargs)
+        if add is None:
+            return (mf, None)
+        if add == '':
+            return (mf, mf.add_track())
+        return (mf, mf.add_track(add))
+''')
+
+
+def _newmf_cfgs():
+    out = []
+    for src in ('nothing', 'tracks', 'file', 'filename'):
+        for typ in (None, 0, 1, 2, 3, -1):
+            out.append({'src': src, 'type': typ, 'add': None})
+    for add in ('', 'Lead'):
+        for src in ('nothing', 'tracks'):
+            out.append({'src': src, 'type': 1, 'add': add})
+    return tuple(out)
+
+
+@contract
+class MidiFileConstruction(Contract):
+    """a 'freshly built MidiFile with the same contents' is what C16 compares with, and what save/load of C07 build: the
+    constructor stores type / ticks_per_beat / charset / clip as given (defaults 1 / 480 / latin1 / False), uses the given
+    tracks list itself, loads from a file object or (opened 'rb') a file name exactly when no tracks are given, refuses a type
+    outside 0..2; add_track appends one new MidiTrack (with a track_name at time 0 when named) to the tracks and returns it"""
+    key = 'C16.construction'
+    target = MF + 'MidiFile.__init__'
+    properties = ('C16', 'C07')
+    configs = _newmf_cfgs()
+    raises = {ValueError: 'bad_type'}
+    symbolic_only = True
+
+    def callee(self, h, cfg):
+        return _NEWMF.get(h)
+
+    def hooks(self, cfg):
+        def _load(ip, args, kwargs):
+            ip.ctx.event('_load', id(args[0]), args[1], dict(args[0].attrs))
+            return None
+        return {raw_function(MF + 'MidiFile._load'): _load}
+
+    def setup(self, h, cfg, ip):
+        import builtins
+        h.opened = []
+
+        class _F:
+            _pyvc_model = True
+
+            def __enter__(ipx, self):
+                return self
+            __enter__._pyvc_native = True
+
+            def __exit__(ipx, self, *exc):
+                self.attrs['closed'] = True
+                return False
+            __exit__._pyvc_native = True
+
+        def open_model(ipx, name, mode='r', *a, **k):
+            f = Obj(_F, {'name': name, 'mode': mode, 'closed': False})
+            h.opened.append(f)
+            return f
+        ip.models.table[builtins.open] = open_model
+
+    def inputs(self, h, cfg):
+        import mido.midifiles.midifiles as M
+        kw = {}
+        if cfg['type'] is not None:
+            kw['type'] = cfg['type']
+            h.tpb = h.int('ticks_per_beat', 1, 32767)
+            kw['ticks_per_beat'] = h.tpb
+            kw['charset'] = 'utf-8'
+            kw['clip'] = True
+        h.given_tracks = [M.MidiTrack()] if False else None
+        if cfg['src'] == 'tracks':
+            h.given_tracks = []
+            kw['tracks'] = h.given_tracks
+        elif cfg['src'] == 'file':
+            h.fileobj = Opaque('file object')
+            kw['file'] = h.fileobj
+        elif cfg['src'] == 'filename':
+            kw['filename'] = 'song.mid'
+        return [M.MidiFile, kw, cfg['add']], {}
+
+    def bad_type(self, h, cfg, a, pr):
+        return cfg['type'] not in (None, 0, 1, 2) and not [e for e in h.ctx.log if e[0] == '_load'] and not h.opened
+
+    def ensures(self, h, cfg, a, r):
+        import mido.midifiles.tracks as TR
+        mf, added = r
+        ma = attrs_of(mf)
+        loads = [e for e in h.ctx.log if e[0] == '_load']
+        given = cfg['type'] is not None
+        out = {'type-in-0..2': cfg['type'] in (None, 0, 1, 2),
+               'type-stored (default 1)': ma['type'] == (cfg['type'] if given else 1),
+               'ticks_per_beat-stored (default 480)': eq(V(ma['ticks_per_beat']), V(h.tpb)) if given else ma['ticks_per_beat'] == 480,
+               'charset-and-clip-stored (defaults latin1, False)': (ma['charset'], ma['clip']) == (('utf-8', True) if given else ('latin1', False))}
+        src = cfg['src']
+        if src == 'tracks':
+            out['uses-the-given-tracks-list-itself'] = ma['tracks'] is h.given_tracks and not loads and not h.opened
+        elif src == 'nothing':
+            out['starts-without-tracks-and-loads-nothing'] = isinstance(ma['tracks'], list) and (len(ma['tracks']) == (0 if cfg['add'] is None else 1)) and not loads and not h.opened
+        elif src == 'file':
+            out['loads-from-the-given-file-object-once-after-the-settings-are-stored'] = len(loads) == 1 and loads[0][2] is h.fileobj and not h.opened \
+                and loads[0][3].get('type') == ma['type'] and loads[0][3].get('charset') == ma['charset'] and loads[0][3].get('clip') == ma['clip']
+        else:
+            out['opens-the-file-name-for-binary-reading-loads-once-and-closes'] = len(h.opened) == 1 and h.opened[0].attrs['name'] == 'song.mid' \
+                and h.opened[0].attrs['mode'] == 'rb' and h.opened[0].attrs['closed'] is True and len(loads) == 1 and loads[0][2] is h.opened[0]
+        if cfg['add'] is not None:
+            tr = ma['tracks']
+            items = list(tr.items) if hasattr(tr, 'items') and not isinstance(tr, dict) else list(tr)
+            out['add_track-appends-one-new-MidiTrack-and-returns-it'] = len(items) == 1 and items[0] is added and cls_of(added) is TR.MidiTrack
+            msgs = list(added.items) if hasattr(added, 'items') else list(added)
+            if cfg['add'] == '':
+                out['unnamed-track-is-empty'] = len(msgs) == 0
+            else:
+                out['named-track-starts-with-its-track_name-at-time-0'] = len(msgs) == 1 and attrs_of(msgs[0]).get('type') == 'track_name' \
+                    and attrs_of(msgs[0]).get('name') == cfg['add'] and attrs_of(msgs[0]).get('time') == 0
+        return out
